@@ -715,13 +715,19 @@ impl Prop for C11 {
             let pl = payload.len();
             let (_, trace) = gen_trace(rng, pl.min(1024), pl, &[], &opts);
             senders.push(Sender { msg, payload, payload_spec: SourceSpec { trace, fault: None } });
-            scripts.push(gen_script(rng, i as u32 + 1, &format!("tok-{}", i + 1), n == 1, transport));
+            scripts.push(gen_script(rng, i as u32 + 1, &format!("tok-{}", i + 1), n == 1 || transport == Transport::Mem, transport));
         }
         if n > 1 {
-            // concurrent senders: every printer answer is a complete 200 so that each sender must get its own
             for s in scripts.iter_mut() {
-                s.status = 200;
+                // a reset while the request is written is decided before the request-id is known: single-sender only
+                s.reset_request_after = None;
+                if transport == Transport::Tcp {
+                    // over real sockets concurrent senders all get a complete 200
+                    s.status = 200;
+                }
             }
+            // tier A: some senders of a concurrent run may meet an error status or a failing connection; the others
+            // must be unaffected and still get their own response (isolation)
         }
         // tier B only: a stalled printer together with a client timeout (the one clock-dependent clause)
         if transport == Transport::Tcp && n == 1 && rng.chance(1, 12) {
